@@ -983,11 +983,9 @@ func toBool(value interface{}) bool {
 	switch v := value.(type) {
 	case bool:
 		return v
-	case int, int8, int16, int32, int64:
+	case int:
 		return v != 0
-	case uint, uint8, uint16, uint32, uint64:
-		return v != 0
-	case float32, float64:
+	case float64:
 		return v != 0
 	case string:
 		return v != ""
@@ -997,8 +995,8 @@ func toBool(value interface{}) bool {
 		return len(v) > 0
 	}
 
-	// Default to true for non-nil values
-	return true
+	// Every other value is truthy exactly when it is not empty
+	return !isEmptyValue(value)
 }
 
 // operatorNot implements the 'not' operator
@@ -1056,11 +1054,9 @@ func isEmptyValue(v interface{}) bool {
 		return value == ""
 	case bool:
 		return !value
-	case int, int8, int16, int32, int64:
+	case int:
 		return value == 0
-	case uint, uint8, uint16, uint32, uint64:
-		return value == 0
-	case float32, float64:
+	case float64:
 		return value == 0
 	case []interface{}:
 		return len(value) == 0
